@@ -75,19 +75,19 @@ class DPSKModulator(BaseModulator):
         # Create bit pattern mapping
         bit_patterns = torch.zeros(self.order, self._bits_per_symbol)
 
+        # forward() maps a bit group to the table row given by its integer value, so row v is labelled by the
+        # binary expansion of v in both modes
+        for i in range(self.order):
+            bin_str = format(i, f"0{self._bits_per_symbol}b")
+            for j, bit in enumerate(bin_str):
+                bit_patterns[i, j] = int(bit)
+
         if self.gray_coding:
-            # Apply Gray coding
-            for i in range(self.order):
-                gray_idx = i ^ (i >> 1)  # Binary to Gray conversion
-                bin_str = format(gray_idx, f"0{self._bits_per_symbol}b")
-                for j, bit in enumerate(bin_str):
-                    bit_patterns[i, j] = int(bit)
-        else:
-            # Standard binary coding
-            for i in range(self.order):
-                bin_str = format(i, f"0{self._bits_per_symbol}b")
-                for j, bit in enumerate(bin_str):
-                    bit_patterns[i, j] = int(bit)
+            # Gray coding: the phase shift with index a carries the label a ^ (a >> 1); store the shifts in label order
+            label_order = torch.zeros(self.order, dtype=torch.long)
+            for a in range(self.order):
+                label_order[a ^ (a >> 1)] = a
+            constellation = constellation[label_order]
 
         self.register_buffer("constellation", constellation)
         self.register_buffer("bit_patterns", bit_patterns)
